@@ -20,6 +20,61 @@ def is_mod_or_sock(t) -> bool:
     return (t.kind == "cls" and t.cls.name == "Module") or (t.kind == "ext" and t.name.startswith("socket.socket"))
 
 
+CLIENT_CHOSEN = ("mod_id", "name", "pid")
+
+
+def derived_indices(cls_node: ast.ClassDef):
+    """Containers of the manager keyed by (or holding) a value the client chose - `<module>.mod_id`, `.name`, `.pid`:
+    {container attr: [(method name, node, chosen attr)]}.  Purely syntactic, so that the rule can be exercised on a fixture."""
+    out = {}
+    for fn in [n for n in cls_node.body if isinstance(n, ast.FunctionDef) and n.name != "__init__"]:
+        for n in walk_local(fn):
+            key = None
+            if isinstance(n, ast.Assign):
+                for t in n.targets:
+                    if isinstance(t, ast.Subscript) and isinstance(t.value, ast.Attribute) and path_of(t.value.value) == "self":
+                        key, cont = t.slice, t.value.attr
+            elif isinstance(n, ast.Call) and isinstance(n.func, ast.Attribute) and n.func.attr in ADDERS and n.args and isinstance(n.func.value, ast.Attribute) and path_of(n.func.value.value) == "self":
+                key, cont = n.args[-1], n.func.value.attr
+            if key is not None and isinstance(key, ast.Attribute) and key.attr in CLIENT_CHOSEN and isinstance(key.value, ast.Name) and key.value.id != "self":
+                out.setdefault(cont, []).append((fn.name, n, key.attr))
+    return out
+
+
+def value_keyed_erasures(fn_node: ast.FunctionDef, mp: str, cont: str):
+    """[(node, guarded)] for the erasures from self.<cont> keyed by <mp>.<client-chosen attr> in fn_node; guarded = the
+    erasure is conditioned on <mp>.connected, the evidence that this very module registered the entry."""
+    g = C.build(fn_node)
+    gs = flow.guard_states(g)
+    out = []
+    for n in g.nodes:
+        hit = False
+        if n.kind == "stmt" and isinstance(n.ast, ast.Delete):
+            for t in n.ast.targets:
+                if isinstance(t, ast.Subscript) and path_of(t.value) == f"self.{cont}" and isinstance(t.slice, ast.Attribute) and path_of(t.slice.value) == mp and t.slice.attr in CLIENT_CHOSEN:
+                    hit = True
+        for c in node_calls(n):
+            if isinstance(c.func, ast.Attribute) and c.func.attr in REMOVERS and c.args and path_of(c.func.value) == f"self.{cont}":
+                a = c.args[0]
+                if isinstance(a, ast.Attribute) and path_of(a.value) == mp and a.attr in CLIENT_CHOSEN:
+                    hit = True
+        if hit:
+            out.append((n, not guards.any_path_implies(gs.at(n), guards.parse(f"{mp}.connected"))))
+    return out
+
+
+def _fixture_verdict():
+    import os
+    p = os.path.join(os.path.dirname(os.path.dirname(os.path.dirname(os.path.abspath(__file__)))), "fixtures", "c07_value_keyed_index.py")
+    tree = ast.parse(open(p, encoding="utf-8").read())
+    res = {}
+    for cls in [n for n in tree.body if isinstance(n, ast.ClassDef)]:
+        rmf = next(f for f in cls.body if isinstance(f, ast.FunctionDef) and f.name == "remove_module")
+        for cont in derived_indices(cls):
+            res[f"{cls.name}.{cont}"] = [gd for _, gd in value_keyed_erasures(rmf, "module", cont)]
+    return res
+
+
 def registrations(prog, ty, mm):
     """Container attributes of MessageManager into which a Module or its socket is inserted:
     {attr: [(func, node, shape)]}; shape in 'item' (self.X[k] = v), 'add' (self.X.add(v)), 'nested-add' (self.X[k].add(v))."""
@@ -250,6 +305,38 @@ def run(prog: Program, chk: Check):
     unreg = [n for n in rg.nodes if n.kind == "for" and path_of(n.ast.iter) == f"{mp}.subs"]
     Cc.decide(bool(unreg) and not flow.must_precede(rg, unreg, [n for n in rg.nodes if iscc(n)]), fkey(rm, "unsubscribed-before-notice"), where(rm),
               "subscriptions are dropped before CLIENT_CLOSED is forwarded", "CLIENT_CLOSED is forwarded while the departed module is still subscribed")
+
+    # ---- K indices keyed by a value the client chose ---------------------------------------------------------------------
+    K = chk.rule("C07-K", "an index keyed by a client-chosen value (mod_id, name, pid) is erased by remove_module, and only on evidence that the departing module registered the entry", 1,
+                 "a client refused for a duplicate id carries the holder's id: erasing by that value on its removal deletes the holder's entry (the holder stops being a recipient); never erasing blocks reuse")
+    fv = _fixture_verdict()
+    if fv != {"MessageManager.connected_ids": [False], "Guarded.by_name": [True]}:
+        raise AnalysisError(f"C07-K self-check: fixtures/c07_value_keyed_index.py must yield one unguarded and one guarded erasure, got {fv}")
+    mm_node = mm.node if hasattr(mm, "node") else None
+    if mm_node is None:
+        raise AnalysisError("anchor vanished: MessageManager class node")
+    di = derived_indices(mm_node)
+    for cont, sites in sorted(di.items()):
+        ers = value_keyed_erasures(rm.node, mp, cont)
+        if not ers:
+            K.bad(fkey(rm, f"value-keyed:{cont}"), where(rm), f"self.{cont} is keyed by a client-chosen value in {sorted({fn for fn, _, _ in sites})} but remove_module never erases the departing module's entry")
+        for n, guarded in ers:
+            K.decide(guarded, fkey(rm, f"value-keyed:{cont}:{norm(n.ast)[:50]}"), where(rm, n.ast), f"erasure from self.{cont} conditioned on {mp}.connected",
+                     f"remove_module erases `{norm(n.ast)[:60]}` from self.{cont} by a value the client chose without evidence ({mp}.connected) that this module registered it: "
+                     "removing a client refused for a duplicate id erases the entry of the module that holds the id")
+    K.ok("C07-K|scan", where(rm), f"{len(di)} container(s) keyed by a client-chosen value in MessageManager; detector exercised on fixtures/c07_value_keyed_index.py")
+
+    # ---- S the message in flight still reaches the survivors ---------------------------------------------------------------
+    S = chk.rule("C07-S", "a delivery loop whose body can remove modules re-establishes the liveness of each recipient before writing to it", 2,
+                 "writing to a module removed earlier in the same delivery raises OSError on the closed socket: the delivery to the remaining clients stops")
+    from .mgr import snapshot_loop_sends
+
+    for f, lp, c, verdict in snapshot_loop_sends(prog, ty, cg, mm, rm):
+        if verdict == "no-nested-removal":
+            S.ok(fkey(f, f"loop:{norm(lp.iter)[:40]}"), where(f, lp), "body cannot remove modules")
+        else:
+            S.decide(verdict == "live", fkey(f, f"liveness-before:{norm(c)}"), where(f, c), "liveness re-established in this iteration before the send",
+                     f"{f.qual}: `{norm(c)}` may address a module that the failure handling of an earlier recipient already removed; the remaining recipients of this message are never served")
 
     # ---- D delivery to the others continues ---------------------------------------------------------------------------
     D = chk.rule("C07-D", "a write-failure handler inside a recipient loop leaves the loop able to continue", 3,
